@@ -73,7 +73,7 @@ REQUIRED = ['mode:' + m for m in MODES] + [
     'kind:gauss', 'kind:lognorm', 'kind:trunc', 'kind:pooled', 'kind:hetero', 'noncentered', 'cov', 'cov:1d', 'cov:2d',
     'red', 'ns=last', 'ns!=last', 'last:hll', 'last:set', 'last:none', 'inner:pop', 'prior:table', 'prior:cont',
     'post:poplevel', 'post:param_map', 'post:individual', 'post:default_individual', 'decoded', 'stat:hetero_rows', 'post:param_map_cycle',
-    'user_error_model_reused', 'seed:numpy_int', 'last_time_at_dose']
+    'user_error_model_reused', 'seed:numpy_int', 'last_time_at_dose', 'fixed_then_regimen:finite']
 TINY = 1e-9
 ENV_SD = 9.0
 SEEDS = st.integers(0, 2 ** 31 - 2)
@@ -229,9 +229,9 @@ def _draw_pop(draw, mech, ems, n_cov_rows, point_only=False, allow_cov=True):
         e = dict(kind=draw(st.sampled_from(kinds)), n_dim=nd)
         if e['kind'] in ('gauss', 'lognorm'):
             e['centered'] = not gen.chance(draw, 0.45)
-        if allow_cov and n_cov_parts == 0 and gen.chance(draw, 0.3):
+        if allow_cov and n_cov_parts < 2 and gen.chance(draw, 0.3):
             e = popgen.draw_cov_wrap(draw, e, n_ids_h, max_cov=2)
-            n_cov_parts = 1
+            n_cov_parts += 1
         parts.append(e)
         d += nd
     pop = parts[0] if (len(parts) == 1 and gen.chance(draw, 0.4)) else dict(kind='comp', parts=parts)
@@ -366,7 +366,9 @@ def _spec(draw):
         s['wm'] = not s['stat']
         psi = _draw_psi(draw, mech)
         s['params'] = psi + (_draw_tiny_sig(draw, ems) if s['wm'] else _draw_ordinary_sig(draw, ems, sum(psi)))
-        s['user_em'] = bool(gen.chance(draw, 0.5)) and ref.EM_NPAR[ems[0]] == 2
+        # a mechanistic parameter is fixed (the model gets wrapped) BEFORE the dosing regimen is set
+        s['fix_first'] = bool(pk and gen.chance(draw, 0.7))
+        s['user_em'] = (not s['fix_first']) and bool(gen.chance(draw, 0.5)) and ref.EM_NPAR[ems[0]] == 2
 
     elif mode == 'poppred':
         noise = (not pk) and gen.chance(draw, 0.12)
@@ -774,6 +776,7 @@ def _build_popm(s, pm):
     import chi
     pop, n_ids_h = s['pop'], s['n_ids_h']
     popm = ref.build_pop(pop, pm.get_parameter_names(), n_ids_h if popgen.has(pop, 'hetero') else None)
+    ref.name_covariates_uniquely(popm)
     last = s.get('last')
     if last is not None and last[0] == 'set':
         popm.set_n_ids(last[1])
@@ -1304,6 +1307,9 @@ class _Built(object):
             self.drop = idx
         else:
             pm = _build_pm(s['mech'], s['ems'])
+            if mode == 'pred' and s.get('fix_first'):
+                pm.fix_parameters({pm.get_parameter_names()[0]: float(s['params'][0])})
+                self.drop = 0
         base = pm
         if self.pop_inner:
             self.popm = _build_popm(s, pm)
@@ -1693,6 +1699,10 @@ def classify(spec):
         labs.append('stat:hetero_rows')
     if s.get('user_em'):
         labs.append('user_error_model_reused')
+    if s.get('fix_first') and s['mech'].get('regimen') is not None:
+        labs.append('fixed_then_regimen')
+        if s['mech']['regimen'].get('num'):
+            labs.append('fixed_then_regimen:finite')
     if s.get('seed_form', 'int') != 'int':
         labs.append('seed:numpy_int')
     if s.get('last_at_dose'):
